@@ -2,7 +2,7 @@ SPECIFICATION GenSpec
 CONSTANTS
   Worlds = {}
   BugCursorLeak = TRUE
-  MaxInt = 1
+  MaxInt = 0
   GenMaxGone = 1
 INVARIANTS EmitLeak
 CHECK_DEADLOCK FALSE
